@@ -281,6 +281,10 @@ def run(ctx):
     # row re-use watermark (shared with C11-R3): speculative rows are re-used only below rows_valid_end
     from . import c11 as _c11
     _c11.watermark_values(ctx, "C01-R2")
+    # the slicer's mask shortcut is the one place where mask bits are set without pushing the token's bytes:
+    # its soundness condition (shared with C10-R4)
+    from . import c10 as _c10
+    _c10.subsume_operands(ctx, "C01-R5")
 
     # ------------------------------------------------------------------ R3 EOS guard
     cm = ctx.body(TP + "::compute_mask_inner")
